@@ -253,6 +253,11 @@ func (s *Sim) addBlock(gseed uint64, maxGroups int, viaAddBlock bool) {
 	}
 	nextHdr := bookkeeping.MakeBlock(prevHdr).BlockHeader
 	nextHdr.TimeStamp = prevHdr.TimeStamp + 4
+	for _, o := range s.observers {
+		if hc, ok := o.(HeaderChooser); ok {
+			hc.ChooseHeader(s, g, &nextHdr)
+		}
+	}
 	ev, err := eval.StartEvaluator(s.led, nextHdr, eval.EvaluatorOptions{Generate: true, Validate: true})
 	if err != nil {
 		s.harness = "StartEvaluator: " + err.Error()
@@ -301,6 +306,14 @@ func (s *Sim) addBlock(gseed uint64, maxGroups int, viaAddBlock bool) {
 	sh := crypto.Hash([]byte(fmt.Sprintf("seed-%d", s.latest+1)))
 	copy(seed[:], sh[:])
 	blk := ub.FinishBlock(seed, prp, true)
+	for _, o := range s.observers {
+		if bt, ok := o.(BlockTamperer); ok {
+			bt.TamperBlock(s, g, blk)
+		}
+	}
+	if s.viol != nil {
+		return
+	}
 	vb, err := s.led.Validate(context.Background(), blk, s.pool)
 	if err != nil {
 		s.violate("C20", "assembled-block-invalid", "", fmt.Sprintf("round %d: a block assembled by the evaluator from accepted groups does not validate on the same ledger: %v", blk.Round(), err))
@@ -506,6 +519,11 @@ func (Engine) Run(t *testing.T, prop, tier string, tape *kernel.Tape, keepLog bo
 		res.HarnessErr = s.harness
 	}
 	res.Nontrivial = s.stats["txn_accepted"] > 5 && s.stats["lookup_checked"] > 0
+	for _, o := range s.observers {
+		if nj, ok := o.(NontrivialJudge); ok {
+			res.Nontrivial = res.Nontrivial && nj.Nontrivial(s)
+		}
+	}
 	res.Sample = map[string]any{"rounds": s.latest, "lookback": s.cfg.MaxAcctLookback, "stats": s.stats}
 	return res
 }
